@@ -175,7 +175,7 @@ package asm
 //@ # findBlock returns a block of f that carries exactly the identifier asked for (the first such block),
 //@ # and fails only if no block of f carries it.
 //@ func findBlock
-//@   props C04 C05
+//@   props C04 C05 C11
 //@   requires f != nil && f.GlobalID >= 0 && blockIdent.LocalID >= 0 && forall(k, 0, len(f.Blocks), f.Blocks[k] != nil)
 //@   assigns nothing
 //@   ensures result1 == nil ==> exists(k, 0, len(f.Blocks), result0 == f.Blocks[k] && f.Blocks[k].LocalIdent == blockIdent && forall(j, 0, k, f.Blocks[j].LocalIdent != blockIdent))
@@ -370,7 +370,7 @@ package asm
 //@ # ID -- whatever order the map iteration produced. The sorting itself is sort.Slice (assumed contract, A6);
 //@ # that the comparison handed to it is "<" on the collected IDs is checked at the call.
 //@ func (*generator).addMetadataDefsToModule
-//@   props C20
+//@   props C20 C17
 //@   requires gen != nil && gen.m != nil && gen.old.metadataDefs != nil && gen.new.metadataDefs != nil && len(gen.m.MetadataDefs) == 0
 //@   requires forall(k int64, mapdom(gen.old.metadataDefs, k) ==> mapdom(gen.new.metadataDefs, k), pattern(mapdom(gen.old.metadataDefs, k)))
 //@   requires forall(k int64, mapdom(gen.new.metadataDefs, k) ==> mapvalk(gen.new.metadataDefs, k) != nil && mdid(mapvalk(gen.new.metadataDefs, k)) == k, pattern(mapdom(gen.new.metadataDefs, k)))
@@ -458,13 +458,14 @@ package asm
 //@     ensures  !mapdom(gen.new.globals, globalIdent(deref(cast(old, "*ast.GlobalIdent")))) ==> result1 != nil && result0 == nil
 //@ # the predecessor of an incoming value is the block indexed under the written label
 //@ func (*funcGen).irIncoming
-//@   props C04 C05
+//@   props C04 C05 C15
 //@   assigns anything
 //@   keeps funcGen.locals, mapof(funcGen.locals)
 //@   requires fgen != nil && fgen.gen != nil && fgen.f != nil && fgen.f.GlobalID >= 0
 //@   ensures result1 == nil && typeis(oldX, "*ast.LocalIdent") && cast(oldX, "*ast.LocalIdent") != nil ==> result0.X == old(fgen.locals[localIdent(deref(cast(oldX, "*ast.LocalIdent")))])
 //@   ensures typeis(oldX, "*ast.LocalIdent") && cast(oldX, "*ast.LocalIdent") != nil && !old(mapdom(fgen.locals, localIdent(deref(cast(oldX, "*ast.LocalIdent"))))) ==> result1 != nil
 //@   ensures !old(mapdom(fgen.locals, localIdent(oldPred))) ==> result1 != nil
+//@   ensures result1 == nil ==> fresh(result0) && allocated(result0)
 //@   ensures result1 == nil ==> result0 != nil && mapdom(fgen.locals, localIdent(oldPred)) && boxed(cast(result0.Pred, "*ir.Block")) == fgen.locals[localIdent(oldPred)] && typeis(result0.Pred, "*ir.Block")
 //@ # a switch case branches to the block indexed under the written label
 //@ func (*funcGen).irCase
@@ -520,6 +521,8 @@ package asm
 //@   requires forall(c int, mapdomk(gen.new.globals, c) && typeis(mapvalk(gen.new.globals, c), "*ir.Func") ==> cast(mapvalk(gen.new.globals, c), "*ir.Func") != nil && cast(mapvalk(gen.new.globals, c), "*ir.Func").GlobalID >= 0 && forall(k, 0, len(cast(mapvalk(gen.new.globals, c), "*ir.Func").Blocks), cast(mapvalk(gen.new.globals, c), "*ir.Func").Blocks[k] != nil))
 //@   ensures !mapdom(gen.new.globals, globalIdent(old.Func())) ==> result1 != nil && result0 == nil
 //@   ensures result1 == nil ==> result0 != nil && mapdom(gen.new.globals, globalIdent(old.Func())) && boxed(result0.Func) == gen.new.globals[globalIdent(old.Func())] && exists(k, 0, len(result0.Func.Blocks), result0.Block == result0.Func.Blocks[k] && result0.Func.Blocks[k].LocalIdent == localIdent(old.Block()))
+
+
 
 
 
@@ -1054,10 +1057,14 @@ package asm
 //@   # %name / @name is the indexed object (irIncoming); a name missing from the index is an error
 //@   requires len(cast(new, "*ir.InstPhi").Incs) == 0
 //@   keeps elems(ir.InstPhi.Incs), ir.Incoming.X, ir.Incoming.Pred, ir.InstPhi.Incs
+//@   # (C15: one incoming object per written pair -- the operand slots of a parsed phi are pairwise distinct)
+//@   ensures result == nil ==> forall(a int, b int, 0 <= a && a < b && b < len(old.Incs()) ==> cast(new, "*ir.InstPhi").Incs[a] != cast(new, "*ir.InstPhi").Incs[b], pattern(cast(new, "*ir.InstPhi").Incs[a], cast(new, "*ir.InstPhi").Incs[b]))
 //@   ensures result == nil ==> len(cast(new, "*ir.InstPhi").Incs) == len(old.Incs()) && forall(k, 0, len(old.Incs()), cast(new, "*ir.InstPhi").Incs[k] != nil && old(mapdom(fgen.locals, localIdent(old.Incs()[k].Pred()))) && typeis(cast(new, "*ir.InstPhi").Incs[k].Pred, "*ir.Block") && boxed(cast(cast(new, "*ir.InstPhi").Incs[k].Pred, "*ir.Block")) == old(fgen.locals[localIdent(old.Incs()[k].Pred())]))
 //@   ensures result == nil ==> forall(k, 0, len(old.Incs()), typeis(old.Incs()[k].X(), "*ast.LocalIdent") && cast(old.Incs()[k].X(), "*ast.LocalIdent") != nil ==> cast(new, "*ir.InstPhi").Incs[k].X == old(fgen.locals[localIdent(deref(cast(old.Incs()[k].X(), "*ast.LocalIdent")))]))
 //@   loop 0: invariant 0 <= range_i && range_i <= len(old.Incs()) && len(inst.Incs) == len(old.Incs())
 //@   loop 0: invariant forall(k, 0, range_i, inst.Incs[k] != nil)
+//@   loop 0: invariant forall(k, 0, range_i, allocated(inst.Incs[k]))
+//@   loop 0: invariant forall(a int, b int, 0 <= a && a < b && b < range_i ==> inst.Incs[a] != inst.Incs[b], pattern(inst.Incs[a], inst.Incs[b]))
 //@   loop 0: invariant forall(k, 0, range_i, old(mapdom(fgen.locals, localIdent(old.Incs()[k].Pred()))))
 //@   loop 0: invariant forall(k, 0, range_i, typeis(inst.Incs[k].Pred, "*ir.Block"))
 //@   loop 0: invariant forall(k, 0, range_i, boxed(cast(inst.Incs[k].Pred, "*ir.Block")) == old(fgen.locals[localIdent(old.Incs()[k].Pred())]))
@@ -1321,14 +1328,15 @@ package asm
 //@ # The scaffold of a global variable / alias / ifunc / function carries the identifier it is indexed under,
 //@ # is a new object of the kind the syntax tree says, and its pointer type is a new pointer type in the
 //@ # address space of the entity.
+//@ # (C13/C14: the type caches of scaffold globals and functions are filled at creation; printing fills nothing)
 //@ func (*generator).newGlobal
-//@   props C04 C06
+//@   props C04 C06 C13 C14
 //@   requires gen != nil
 //@   assigns nothing
 //@   ensures result1 == nil ==> result0 != nil && fresh(result0) && result0.GlobalIdent == ident && result0.ContentType != nil && result0.Typ != nil && fresh(result0.Typ) && result0.Typ.ElemType == result0.ContentType && result0.Typ.AddrSpace == result0.AddrSpace
 //@   ensures result1 != nil ==> result0 == nil
 //@ func (*generator).newFunc
-//@   props C04 C06
+//@   props C04 C06 C13 C14
 //@   requires gen != nil
 //@   assigns nothing
 //@   ensures result1 == nil ==> result0 != nil && fresh(result0) && result0.GlobalIdent == ident && result0.Parent == gen.m && result0.Sig != nil && result0.Typ != nil && fresh(result0.Typ) && result0.Typ.ElemType == boxed(result0.Sig) && result0.Typ.AddrSpace == result0.AddrSpace
